@@ -70,9 +70,10 @@ class FileConfig:
 
     def get_namespace(self, ns):
         res = {}
+        prefix = ns + "."
         for k, v in self.items():
-            if k.startswith(ns):
-                new_key = k[len(ns) + 1 :]
+            if k.startswith(prefix):
+                new_key = k[len(prefix) :]
                 res[new_key] = v
         return res
 
